@@ -85,6 +85,8 @@ class CallMixin:
                 v = self.eval(kw.value)
                 if isinstance(v, Cell) and v.kind == "dict" and v.sym is None:
                     kwargs.update(v.conc)
+                elif isinstance(v, Opaque):
+                    kwargs["**"] = v          # unknown further keyword arguments (only unmodelled callees receive them)
                 else:
                     raise Unsupported("**kwargs of symbolic dict")
             else:
